@@ -131,7 +131,9 @@ func (p *Program) limitCompares(fn *ssa.Function) []limitCompare {
 func (p *Program) refusalEdge(ifi *ssa.If) int {
 	fn := ifi.Parent()
 	ei := errResultIndex(fn)
-	res := -1
+	// per successor: 2 = returns a freshly built error (a refusal), 1 = returns an error that may be non-nil
+	// (e.g. the result of the next processing step), 0 = neither
+	var grade [2]int
 	for succ := 0; succ < 2; succ++ {
 		b := ifi.Block().Succs[succ]
 		for _, in := range b.Instrs {
@@ -139,21 +141,57 @@ func (p *Program) refusalEdge(ifi *ssa.If) int {
 			if !ok || ei < 0 {
 				continue
 			}
-			nonNil := false
+			nonNil, fresh := false, true
 			for _, o := range p.origins(rt.Results[ei], originOpts{}) {
-				if !isNilConst(o) {
-					nonNil = true
+				if isNilConst(o) {
+					fresh = false
+					continue
+				}
+				nonNil = true
+				if !isFreshError(o) {
+					fresh = false
 				}
 			}
-			if nonNil {
-				if res >= 0 {
-					return -1 // both edges refuse
-				}
-				res = succ
+			switch {
+			case nonNil && fresh:
+				grade[succ] = 2
+			case nonNil && grade[succ] == 0:
+				grade[succ] = 1
 			}
 		}
 	}
-	return res
+	switch {
+	case grade[0] == 2 && grade[1] < 2:
+		return 0
+	case grade[1] == 2 && grade[0] < 2:
+		return 1
+	case grade[0] > 0 && grade[1] > 0:
+		return -1 // both edges may fail: not a refusing guard we can orient
+	case grade[0] > 0:
+		return 0
+	case grade[1] > 0:
+		return 1
+	}
+	return -1
+}
+
+// isFreshError: an error value built on the spot (constructor call, sentinel variable, literal), as
+// opposed to the error result of further processing.
+func isFreshError(v ssa.Value) bool {
+	switch x := v.(type) {
+	case *ssa.Call:
+		n := calleeName(x)
+		return n == "fmt.Errorf" || n == "errors.New" || strings.HasSuffix(n, "status.Errorf") || strings.HasSuffix(n, "status.Error") ||
+			strings.HasSuffix(n, "Status).Err") || strings.HasSuffix(n, "protowire.ParseError")
+	case *ssa.MakeInterface:
+		return true
+	case *ssa.UnOp:
+		_, isGlobal := x.X.(*ssa.Global)
+		return x.Op == token.MUL && isGlobal
+	case *ssa.Alloc:
+		return true
+	}
+	return false
 }
 
 // assumeLimitPositive returns an edge filter under which `limit > 0`-style
@@ -348,25 +386,43 @@ func ruleLimitSrc(r *Run) {
 				}
 				ok, why := p.resultLenChecked(cv, fn)
 				r.check(ok, key, in.Pos(), why, shortName(n)+" reads a whole message of any size into memory: "+why)
-			case c.Common().IsInvoke() && c.Common().Method.Name() == "Read" && c.Common().Method.Pkg() != nil && c.Common().Method.Pkg().Path() == "io":
+			case isRawRead(c) || p.helperDoesRawRead(c):
 				if isReaderReadImpl(fn) {
 					return // pass-through adapter reading into the caller's buffer
+				}
+				// accumulate-and-compare: every path from the Read to a return or back to the Read passes a limit comparison
+				bounded := func(fn *ssa.Function, in ssa.Instruction) []*ssa.BasicBlock {
+					isCmp := map[ssa.Instruction]bool{}
+					for _, lc := range p.limitCompares(fn) {
+						isCmp[lc.ifi] = true
+					}
+					q := pathQuery{fn: fn, start: in,
+						barrier: func(x ssa.Instruction) bool { return isCmp[x] },
+						target:  func(x ssa.Instruction) bool { return x == in || isReturn(x) }}
+					w, _ := q.find()
+					return w
+				}
+				if !isRawRead(c) {
+					// a helper that reads: nothing to add when the helper compares with the limit itself
+					selfBounded := true
+					eachInstr(c.Common().StaticCallee(), func(y ssa.Instruction) {
+						if yc, ok := y.(ssa.CallInstruction); ok && isRawRead(yc) && bounded(y.Parent(), y) != nil {
+							selfBounded = false
+						}
+					})
+					if selfBounded {
+						return
+					}
+				}
+				if p.isTransparent(fn) && !p.isStreamCodecReadNext(fn) && bounded(fn, in) != nil {
+					return // not bounded here: judged at the helper's call sites, where the limit comparison lives
 				}
 				key := mk("Read")
 				if p.isStreamCodecReadNext(fn) {
 					r.ok(key, in.Pos(), "raw Read inside a StreamCodec.ReadNext: bounded by rule LIMIT-IMPL")
 					return
 				}
-				// accumulate-and-compare: every path from the Read to a return or back to the Read passes a limit comparison
-				cmps := p.limitCompares(fn)
-				isCmp := map[ssa.Instruction]bool{}
-				for _, lc := range cmps {
-					isCmp[lc.ifi] = true
-				}
-				q := pathQuery{fn: fn, start: in,
-					barrier: func(x ssa.Instruction) bool { return isCmp[x] },
-					target:  func(x ssa.Instruction) bool { return x == in || isReturn(x) }}
-				if w, _ := q.find(); w != nil {
+				if w := bounded(fn, in); w != nil {
 					r.bad(key, in.Pos(), "raw Read into memory with a path to a return / the next Read that passes no comparison with the receive limit (%s)", p.describePath(w))
 				} else {
 					r.ok(key, in.Pos(), "every path from the Read passes a comparison with the configured limit before returning or reading again")
@@ -374,6 +430,25 @@ func ruleLimitSrc(r *Run) {
 			}
 		})
 	}
+}
+
+// isRawRead: io.Reader.Read through the interface.
+func isRawRead(c ssa.CallInstruction) bool {
+	return c.Common().IsInvoke() && c.Common().Method.Name() == "Read" && c.Common().Method.Pkg() != nil && c.Common().Method.Pkg().Path() == "io"
+}
+
+// helperDoesRawRead: c calls a transparent helper whose region performs a raw Read (the grow-and-read
+// block of a codec extracted into a function): the call is then the read, as far as the caller's limit
+// comparisons are concerned.
+func (p *Program) helperDoesRawRead(c ssa.CallInstruction) bool {
+	callee := c.Common().StaticCallee()
+	if callee == nil || c.Common().IsInvoke() || !p.isTransparent(callee) {
+		return false
+	}
+	return p.callMay(c, func(in ssa.Instruction) bool {
+		cc, ok := in.(ssa.CallInstruction)
+		return ok && isRawRead(cc)
+	})
 }
 
 // sliceBoundedByLimit: buf is x[lo:hi] with hi constant, or hi (modulo conversions) compared with a limit-derived value on a refusing guard that dominates `at`.
